@@ -918,6 +918,15 @@ Definition ws_ok (p : pkg) (w : ws) : bool :=
      inherits it: only package-qualified names mean the same everywhere *)
   && forallb (fun q => negb (qr_pkg q =? "")) (w_inh w)
   && forallb (fun q => match lookup_ws (resolve (p_name p) q) with Some (_, w') => w_abstract w' | None => false end) (w_inh w)
+  (* checkChain keeps every INHERITS reference it has walked below one direct ancestor and calls a
+     second visit "circular": below each direct ancestor no workspace that itself INHERITS may be
+     reachable along two paths (a diamond is refused as soon as it has an heir) *)
+  && forallb (fun q => match ws_anc fuelw (p_name p) [q] with
+                       | Some l => nodup_b qname_eqb (filter (fun x => match lookup_ws x with
+                                                                       | Some (_, w') => negb (match w_inh w' with [] => true | _ => false end)
+                                                                       | None => false end) l)
+                       | None => false
+                       end) (w_inh w)
   && (negb (w_abstract w) || match w_desc w with None => true | Some _ => false end)
   && match w_desc w with Some fs => forallb (field_ok true) fs && nodup_b String.eqb (map f_name fs) | None => true end
   && grants_before_revokes false (w_items w)
